@@ -152,6 +152,9 @@ namespace nmtools::array
             //     "mismatched shape for evaluator call"
             // );
 
+            #ifdef NMTOOLS_VERIF
+            NMTOOLS_VERIF_CHECK( (!::nmtools::utils::isequal(out_shape,inp_shape)), 6, 0, 0 );
+            #endif // NMTOOLS_VERIF
             if (!::nmtools::utils::isequal(out_shape,inp_shape))
                 return;
 
